@@ -23,6 +23,9 @@ func main() {
 	tier := flag.String("tier", "quick", "quick | thorough")
 	repo := flag.String("repo", "/repo", "tree to analyse")
 	verif := flag.String("verif", "", "verif dir (default: directory above the binary, or /verif)")
+	goarch := flag.String("goarch", "", "GOARCH for the load (thorough tier uses 386)")
+	overlay := flag.String("overlay", "", "directory whose files overlay the same relative paths of -repo (mutant self-test)")
+	noev := flag.Bool("noevidence", false, "do not write evidence / replay files (sub-runs of the thorough tier)")
 	flag.Parse()
 	if t := os.Getenv("VERIF_TIER"); t != "" && *tier == "" {
 		*tier = t
@@ -56,7 +59,22 @@ func main() {
 	}
 	start := time.Now()
 	findings, ferr := report.LoadFindings(filepath.Join(vdir, "known_findings.jsonl"))
-	P, err := an.Load(*repo, false, "", nil)
+	var ov map[string][]byte
+	if *overlay != "" {
+		ov = map[string][]byte{}
+		_ = filepath.Walk(*overlay, func(path string, info os.FileInfo, err error) error {
+			if err != nil || info.IsDir() {
+				return nil
+			}
+			rel, _ := filepath.Rel(*overlay, path)
+			b, rerr := os.ReadFile(path)
+			if rerr == nil {
+				ov[filepath.Join(*repo, rel)] = b
+			}
+			return nil
+		})
+	}
+	P, err := an.Load(*repo, false, *goarch, ov)
 	exit := 0
 	for _, id := range props {
 		r := report.New(id)
@@ -83,13 +101,14 @@ func main() {
 					r.Fatal("only %d packages loaded, expected >= 3", n)
 				}
 				r.Explanation = rules.Descriptions[id]
-				ctx := &rules.Ctx{P: P, R: r, Tier: *tier}
+				ctx := &rules.Ctx{P: P, R: r, Tier: *tier, Repo: *repo, Verif: vdir}
 				check(ctx)
-				if *tier == "thorough" {
+				if *tier == "thorough" && !*noev {
 					rules.Thorough(ctx, id)
 				}
 			}()
 		}
+		r.NoEvidence = *noev
 		out := r.Finish(vdir, *tier, seed, start, findings)
 		if out.ExitCode != 0 {
 			exit = 1
